@@ -58,11 +58,17 @@ def check_stream(case, stats):
     opts = tuple(case["opts"])
     paths = []
     try:
+        written = {}
         for i, s in enumerate(case["sources"]):
+            # the same source listed twice is the same file listed twice (same uri)
+            if case.get("same_path_for_equal_sources") and s in written:
+                paths.append(written[s])
+                continue
             p = "src%d-%d.feature" % (os.getpid(), i)
             with open(p, "w", encoding="utf8", newline="") as f:
                 f.write(s)
             paths.append(p)
+            written[s] = p
         if any(gh.names_existing_path(s) for s in case["sources"]):
             stats.label("excluded_known_F1")
             return
@@ -155,7 +161,11 @@ def g_stream(s):
                                   "Feature: f\n Scenario: s\n  Given t\n   | a |\n  And d\n   ```x\n   c\n   ```\n"]))
         else:
             srcs.append(noisy.g_noisy(s)[0])
-    return {"sub": "stream", "sources": srcs, "opts": [bool(s.int(2)), bool(s.int(2)), bool(s.int(2))], "api": "main" if s.int(6) == 0 else "enum"}
+    dup = s.int(4) == 0
+    if dup and srcs:
+        srcs.insert(s.int(len(srcs) + 1), srcs[s.int(len(srcs))])
+    return {"sub": "stream", "sources": srcs, "opts": [bool(s.int(2)), bool(s.int(2)), bool(s.int(2))], "api": "main" if s.int(6) == 0 else "enum",
+            "same_path_for_equal_sources": dup}
 
 
 def unit_stream(a):
@@ -165,10 +175,32 @@ def unit_stream(a):
     return stats
 
 
+def large_sources():
+    """sources larger than any plausible read buffer, full of 2-, 3- and 4-byte characters so that some character straddles every block boundary"""
+    out = []
+    for size in (70000, 140000, 300000):
+        body = []
+        n = 0
+        i = 0
+        while n < size:
+            line = "  d%d %s\n" % (i, ("é" * (i % 7)) + ("日" * (i % 5)) + ("\U0001F600" * (i % 3)) + "x" * (i % 11))
+            body.append(line)
+            n += len(line.encode("utf8"))
+            i += 1
+        out.append("Feature: big\n" + "".join(body) + " Scenario: s\n  Given é\n")
+    return out
+
+
 def unit_corpus(a):
     stats = Stats()
     texts = noisy.corpus_texts()
     cases = []
+    for big in large_sources():
+        cases.append({"sub": "stream", "sources": [big, "Feature: after\n"], "opts": [True, True, True], "api": "enum"})
+        cases.append({"sub": "stream", "sources": ["Feature: before\n Scenario: s\n  Given x\n", big], "opts": [False, True, False], "api": "main"})
+    same = texts[3][1]
+    cases.append({"sub": "stream", "sources": [same, texts[4][1], same, same], "opts": [True, True, True], "api": "enum", "same_path_for_equal_sources": True})
+    cases.append({"sub": "stream", "sources": [same, same], "opts": [False, False, True], "api": "main", "same_path_for_equal_sources": True})
     for opts in itertools.product([True, False], repeat=3):
         for i in range(0, len(texts), 4):
             cases.append({"sub": "stream", "sources": [t for _, t in texts[i:i + 4]], "opts": list(opts), "api": "main" if (i // 4) % 3 == 0 else "enum"})
